@@ -46,6 +46,9 @@ def model_assumption_broken():
 
 def replay_with(lines, i):
     """a failing ordered history is replayed together with its calls run on their own"""
+    for (rl, i1, i2) in _st.get("reuse", []):
+        if lines[i] == rl:
+            return [k for k, l in enumerate(lines) if l in (i1, i2)]
     if lines[i].startswith("@impl sequence "):
         reqs = {x.strip() for x in lines[i][len("@impl sequence "):].split(";;")}
         return [k for k, l in enumerate(lines) if l.strip() in reqs and not l.startswith("@")]
@@ -121,6 +124,18 @@ def followup(stage, lines, model, checked, release, tier, rng):
             vb = [K.verify_raw(s, sig, msg, pk2.hex()), good, K.verify_raw(s, sig, msg, pk2.hex())]
             vc = [good, K.verify_raw(s, sig, msg, pk2.hex()), good]
             seqs += [va, vb, vc]
+        # several calls on ONE key object of the ML-DSA containers (contexts of different shapes, then none): each answer must be
+        # what the call returns on a freshly built object
+        for (s, msg, pk, r) in _st["sigreq"]:
+            if not S.P(s).mldsa or (s, "reuse") in _st["iso"]:
+                continue
+            _st["iso"].add((s, "reuse"))
+            sk = r.split()[2]
+            for (m1, c1, m2, c2) in ((R(30), R(12), R(25), None), (R(30), None, R(25), R(3)), (R(8), R(200), R(40), b""), (R(40), b"", R(8), None)):
+                i1 = K.api_sign(s, sk, m1, c1); i2 = K.api_sign(s, sk, m2, c2)
+                L.append(i1); L.append(i2)
+                L.append("@impl %s::SecretKey::sign_reuse %s %s %s %s %s" % (K.API[s], sk, K.hx(m1), K.ctxs(c1), K.hx(m2), K.ctxs(c2)))
+                _st.setdefault("reuse", []).append((L[-1], i1, i2))
         kg = [l for l in pool if "::keypair" in l]
         sg = [l for l in pool if "::signature" in l]
         mixed = []
@@ -146,6 +161,13 @@ def followup(stage, lines, model, checked, release, tier, rng):
 
 def violated_all(lines, model, checked, release):
     out = []
+    idxl = {l: i for i, l in enumerate(lines)}
+    for (rl, i1, i2) in _st.get("reuse", []):
+        if rl in idxl and i1 in idxl and i2 in idxl:
+            for prof, ans in (("checked", checked), ("wrapping", release)):
+                want = "ok %s %s" % (ans[idxl[i1]][3:], ans[idxl[i2]][3:])
+                if ans[idxl[rl]] != want:
+                    out.append((idxl[rl], "%s build: two signing calls on one %s::SecretKey object do not return what each returns on a fresh object" % (prof, rl.split()[1].split("::")[0])))
     first = {}
     for i, l in enumerate(lines):
         if l.startswith("@impl interleave"):
